@@ -36,6 +36,11 @@ ALTERNATIVES = {
 }
 
 
+# formats with several numbering schemes of the same length, only some of which have a generator: completion cannot be
+# constructed from the generator alone (the corpus-based harness would apply the wrong scheme)
+MULTI_SCHEME = {'stdnum.lv.pvn': 'legal entities use checksum()==3, persons a generator'}
+
+
 def relations(mod):
     """[(generator function object, ARG expr, POS expr, op)] from the comparisons in validate()"""
     fn = front.func_of(mod.validate, Func)
@@ -60,8 +65,9 @@ def relations(mod):
                     continue
                 op = type(n.ops[0]).__name__
                 if op in ('NotEq', 'Eq', 'NotIn', 'In'):
-                    out.append((g, a.args[0], b, op, b.value.id))
-    return fn, out
+                    out.append((n.lineno, g, a.args[0], b, op, b.value.id))
+    out.sort(key=lambda t: t[0])
+    return fn, [t[1:] for t in out]
 
 
 def indices(expr, var, n):
@@ -112,7 +118,7 @@ def convention_relations(mod):
             if ok and k:
                 arg = ast.parse('number' if whole else 'number[:-%d]' % k, mode='eval').body
                 pos = ast.parse('number[-1]' if k == 1 else 'number[-%d:]' % k, mode='eval').body
-                out.append((g, arg, pos, 'NotEq', 'number'))
+                out.append((g, arg, pos, 'NotEq', 'number:convention'))
                 break
     return out
 
@@ -130,8 +136,8 @@ def checker_factory(modname):
         L = len(vs)
         used = False
         for g, arg_e, pos_e, op, var in rels:
-            pos = indices(pos_e, var, L)
-            arg = indices(arg_e, var, L)
+            pos = indices(pos_e, var.split(':')[0], L)
+            arg = indices(arg_e, var.split(':')[0], L)
             if not pos or arg is None or any(i >= L or i < -L for i in pos):
                 continue
             gf = front.func_of(g, Func)
@@ -172,7 +178,7 @@ def checker_factory(modname):
                     c = Or(*[in_set(posv.chars[0], ISet([(ch, ch)])) if isinstance(ch, int) else (posv.chars[0] == ch) for ch in r1s.chars]) if True else None
                 holds = c is True or (c is not False and ctx.entails(c))
                 if not holds:
-                    if len(rels) == 1 and modname not in ALTERNATIVES:
+                    if len(rels) == 1 and modname not in ALTERNATIVES and var.endswith(':convention'):
                         # the only generator relation of the format: a valid number whose check character is not the generated one
                         w = sw.witness(ctx, p.ctx.primary, None if c is False else Not(c))
                         if w:
@@ -281,13 +287,13 @@ def completion_bounded(rep, mods, tier):
                 v = mod.validate(x)
             except Exception:      # noqa: B902
                 continue
-            if m in ALTERNATIVES:
+            if m in ALTERNATIVES or m in MULTI_SCHEME:
                 continue
             # the relations that hold on this valid number (formats with several schemes: only the applicable ones)
             app = []
             for g, arg_e, pos_e, op, var in rels:
-                pos = indices(pos_e, var, len(v))
-                arg = indices(arg_e, var, len(v))
+                pos = indices(pos_e, var.split(':')[0], len(v))
+                arg = indices(arg_e, var.split(':')[0], len(v))
                 if not pos or not arg or op not in ('NotEq', 'Eq'):
                     continue
                 try:
@@ -298,6 +304,19 @@ def completion_bounded(rep, mods, tier):
                     app.append((g, arg, pos))
             if not app:
                 continue
+            # apply the generators in dependency order: one whose payload contains another's check position comes later
+            ordered = []
+            rest = list(app)
+            while rest:
+                free = [r_ for r_ in rest if not any(set(o[2]) & set(r_[1]) for o in rest if o is not r_)]
+                if not free:
+                    ordered = None
+                    break
+                ordered += free
+                rest = [r_ for r_ in rest if r_ not in free]
+            if ordered is None:
+                continue
+            app = ordered
             allpos = {p_ for g, arg, pos in app for p_ in pos}
             payload = sorted({a for g, arg, pos in app for a in arg} - allpos)
             if not payload:
